@@ -65,7 +65,7 @@ def run_model(name, configs, *, acts, max_steps, record, max_perm=3, emit=False,
 
 # -- concrete world -----------------------------------------------------------------
 
-def make_fn(failpath, names, mode, version=1, exc_kind="value"):
+def make_fn(failpath, names, mode, version=1, exc_kind="value", np_check=False):
     """The swept function, defined in a closure so that cloudpickle ships it by value.
     Returns a token of exactly its keyword arguments (the constant kattr shifts it by 10^6 per unit above 7);
     version 1 raises on the tokens listed in failpath, version 2 (the corrected function) never does."""
@@ -78,6 +78,8 @@ def make_fn(failpath, names, mode, version=1, exc_kind="value"):
         want_extra = ["kattr", "t"] if mode == "xvt" else ["kattr"]
         if extra != want_extra or kw["kattr"] not in (7, 8):
             tok = -1          # constants must be passed exactly
+        if np_check and any(type(kw[nm]).__name__ != "uint8" for nm in names):
+            tok = -1          # argument values must arrive with the type they were given (numpy uint8 here)
         bad = []
         if version == 1:
             try:
@@ -134,7 +136,8 @@ class World(object):
             self.tok_of[i + 1] = t
             self.id_of_tok[t] = i + 1
         self.set_failing(sorted(cfg["failing"]) if isinstance(cfg["failing"], (list, set)) else [])
-        self.fn = make_fn(self.failpath, tuple(self.names), self.mode, 1, variant.get("exc_kind", "value"))
+        self.np_values = bool(variant.get("np_values"))
+        self.fn = make_fn(self.failpath, tuple(self.names), self.mode, 1, variant.get("exc_kind", "value"), self.np_values)
         self.kver = 0           # version of the farmer's constants
         self.expect_k = 0       # constants version the model says is baked into the sown batches
         self.cause = cfg["cause"]
@@ -146,6 +149,10 @@ class World(object):
             self.data_name = os.path.join(self.data_dir, "data" + ((".h5" if self.engine == "h5netcdf" else ".dmp") if ext else ""))
         else:
             self.data_name = os.path.join(self.data_dir, "table." + ("pkl" if self.engine == "pickle" else "csv"))
+        self.memory_only = (bool(variant.get("memory_only")) and cfg["cause"] == "none" and self.farmer_kind in ("harvester", "sampler")
+                            and not any(ev["a"] in ("reload", "direct_harvest") for ev in case["hist"]))
+        if self.memory_only:
+            self.data_name = None          # an in-memory Harvester / Sampler
         self.crop = None
         self.farmer = None
         self.overwrite = None
@@ -199,7 +206,8 @@ class World(object):
         xyz = self.xyz
         cfg = self.cfg
         kw = dict(name="vxcrop", parent_dir=self.tmp)
-        if first:
+        if first or (self.variant.get("reload_ctor_args") and not from_disk):
+            # (a user re-running the script constructs the Crop with the same arguments again: what is on disk wins)
             if cfg["bwhere"] == "ctor":
                 if cfg["bmode"] == "size":
                     kw["batchsize"] = cfg["bval"]
@@ -230,14 +238,17 @@ class World(object):
         # seed 1 -> True or an int, seed 2 -> another int; the forced shuffle keys on int(seed)
         return {1: self.variant.get("seed1", True), 2: 5}[s]
 
+    def val(self, v):
+        return np.uint8(v) if self.np_values else v
+
     def combos_arg(self, reverse):
-        items = [(nm, list(range(1, n + 1))) for nm, n in zip(self.grid_names, self.cfg["grid"])]
+        items = [(nm, [self.val(v) for v in range(1, n + 1)]) for nm, n in zip(self.grid_names, self.cfg["grid"])]
         if reverse:
             items = items[::-1]
         return items
 
     def cases_arg(self):
-        return [dict(zip(self.case_names, c)) for c in self.cfg["cases"]]
+        return [dict(zip(self.case_names, [self.val(v) for v in c])) for c in self.cfg["cases"]]
 
 
 class ForcedShuffle(object):
@@ -506,8 +517,32 @@ def check_direct(w, reaped):
     return None
 
 
+def check_store_memory(w, ids):
+    """In-memory farmer: everything delivered must be in Harvester.full_ds / Sampler.full_df."""
+    if w.farmer_kind == "harvester":
+        ds = w.farmer._full_ds
+        if ds is None:
+            return None if not ids else "the in-memory Harvester holds no data although %d settings were reaped" % len(ids)
+        for i, loc in enumerate(w.case["settings"]):
+            i += 1
+            try:
+                x = float(ds["x"].sel(dict(zip(w.names, loc))).values)
+            except KeyError:
+                x = float("nan")
+            got = 0 if math.isnan(x) else tok_id(w, x)
+            if got != (i if i in ids else 0):
+                return "the in-memory Harvester holds the value of setting %s at setting %d, expected %s" % (got, i, i if i in ids else 0)
+        return None
+    df = w.farmer._full_df
+    if df is None or len(df) == 0:
+        return None if not ids else "the in-memory Sampler holds no rows although %d settings were reaped" % len(ids)
+    return None
+
+
 def check_store(w, store_ids, extra=0):
     """The farmer's on-disk data must hold exactly the delivered ids (Harvester)."""
+    if w.memory_only:
+        return check_store_memory(w, set(store_ids))
     if w.farmer_kind != "harvester":
         return None
     f = w.data_file()
@@ -570,6 +605,10 @@ def do_step(w, ev):
             if a in ("sow", "resow"):
                 if a == "sow":
                     if w.crop is None:
+                        if w.variant.get("early_handle") and w.farmer_kind == "none":
+                            # a handle created before anybody sowed (it knows nothing yet); used later for reaping
+                            w.early = w.xyz.Crop(fn=w.fn, name="vxcrop", parent_dir=w.tmp)
+                            w.first_handle = None
                         crop = w.new_handle(first=True)
                     else:
                         crop = w.crop          # a second campaign on the very same Crop object
@@ -589,11 +628,11 @@ def do_step(w, ev):
                     crop.sow_combos(combos, cases=w.cases_arg() if cfg["nca"] else None, constants=consts,
                                     verbosity=0, **kw)
                 elif cfg["kind"] == "cases":
-                    cases = [tuple(c) for c in cfg["cases"]]
+                    cases = [tuple(w.val(v) for v in c) for c in cfg["cases"]]
                     crop.sow_cases(w.case_names, cases, combos=tuple(w.combos_arg(reverse=False)) or None,
                                    constants=consts, verbosity=0, **kw)
                 else:
-                    feeds = {nm: [c[j] for c in cfg["cases"]] for j, nm in enumerate(w.case_names)}
+                    feeds = {nm: [w.val(c[j]) for c in cfg["cases"]] for j, nm in enumerate(w.case_names)}
                     pos = {nm: 0 for nm in feeds}
 
                     def feeder(nm):
@@ -639,7 +678,7 @@ def do_step(w, ev):
                 crop.grow_missing(verbosity=0)
             elif a == "fix_fn":
                 # the corrected function is put into the session's objects; workers see it after a re-sow
-                w.fn = make_fn(w.failpath, tuple(w.names), w.mode, 2)
+                w.fn = make_fn(w.failpath, tuple(w.names), w.mode, 2, "value", w.np_values)
                 w.crop.fn = w.fn
                 if w.farmer is not None:
                     w.farmer.fn = w.fn
@@ -702,7 +741,8 @@ def do_step(w, ev):
                     kw["overwrite"] = w.overwrite
                 elif w.farmer_kind == "harvester" and w.cfg["cause"] != "merge" and w.variant.get("overwrite_pol") is not None:
                     kw["overwrite"] = w.variant["overwrite_pol"]       # no conflicting data around: the policy must not matter
-                ret = w.crop.reap(**kw)
+                reaper = w.early if (getattr(w, "early", None) is not None and w.variant.get("early_handle")) else w.crop
+                ret = reaper.reap(**kw)
             else:
                 raise RuntimeError("unknown action %r" % a)
     except Exception as e:  # noqa
@@ -836,7 +876,8 @@ def default_variants(case, idx):
     cfg = case["cfg"]
     k = idx
     v = dict(seed1=[True, 3][k % 2], combos_dict=(k % 3 != 0), reload_from_disk=(k % 2 == 0),
-             corrupt_kind=["truncate", "long", "short"][k % 3], exc_kind=["value", "stop"][k % 4 == 1])
+             corrupt_kind=["truncate", "long", "short"][k % 3], exc_kind=["value", "stop"][k % 4 == 1],
+             np_values=(k % 5 == 2), reload_ctor_args=(k % 2 == 1), early_handle=(k % 3 == 0), memory_only=(k % 4 == 3))
     if cfg["farmer"] == "none":
         v["result"] = ["scalar", "xy", "array", "str", "bool"][k % 5]
     else:
